@@ -113,12 +113,12 @@ def signP : Bytes → Bool × Bytes
 
 def applySign (minus : Bool) (n : Nat) : Int := if minus then -(Int.ofNat n) else Int.ofNat n
 
-/-- `IntegerP::parse` (pdf_prim.rs 205-249). -/
+/-- `IntegerP::parse` (pdf_prim.rs; an empty digit string is an error). -/
 def integerP (s : Bytes) : Res (Int × Bytes) :=
   let (minus, s1) := signP s
   let ds := s1.takeWhile isDigit
   let r := s1.dropWhile isDigit
-  if ds.isEmpty && r.head? != some 46 then .err .guard
+  if ds.isEmpty then .err .guard
   else match accDigits i64Max 0 ds with
     | none => .err .guard
     | some n => .ok (applySign minus n, r)
@@ -314,7 +314,12 @@ def numOrRefP (s : Bytes) : Res (Obj × Bytes) :=
           match wsNonEmpty r3 with
           | none => .ok (n1, r1)
           | some r4 =>
-            if r4.head? == some 82 then referenceP s else .ok (n1, r1)
+            -- `check_prefix(b"R")`, and the keyword has to end its token
+            let atRef := match r4 with
+              | 82 :: [] => true
+              | 82 :: c :: _ => isDelim c
+              | _ => false
+            if atRef then referenceP s else .ok (n1, r1)
 
 mutual
 /-- `parse_pdf_obj` (depth wrapper, `budget = max_depth - cur_depth`) followed by
@@ -353,7 +358,7 @@ def pdfObjP : Nat → Nat → Bytes → Res (Obj × Bytes)
         else
           match hexStringP s with
           | .ok (v, r) => .ok (.str v, r) | .err k => .err k | .panic p => .panic p
-      else if isDigit b || b == 45 || b == 46 then numOrRefP s
+      else if isDigit b || b == 45 || b == 46 || b == 43 then numOrRefP s
       else .err .guard                     -- "not at PDF object"
 
 /-- the `while !end` loop of `ArrayP::parse` after the opening bracket. -/
